@@ -314,6 +314,13 @@ class AsyncSrc:
         # is going to provide, so it is no basis for a shortcut
         return 0
 
+    # value semantics (like a dataclass cursor): every source compares EQUAL to every other one and none is
+    # hashable - two sources are the same source only if they are the same object
+    def __eq__(self, other: Any) -> bool:
+        return isinstance(other, AsyncSrc)
+
+    __hash__ = None  # type: ignore[assignment]
+
     def __aiter__(self) -> "AsyncSrc":
         return self
 
